@@ -94,9 +94,14 @@ def main():
     mod.__dict__["__builtins__"] = shim.make_builtins({})
     exec(compile(tree, "<toy>", "exec"), mod.__dict__)
 
-    class FakeRepo:          # the toy programs touch nothing of the repository (elements are abstract compound nodes)
-        mods, desugared = {}, {"toy": stats}
-    repo = FakeRepo()
+    import os
+    from pyvc.loader import Repo
+    try:
+        # the abstract elements carry real puan.variable / puan.Bounds objects (created without running their code)
+        repo = Repo(os.environ.get("VERIF_REPO", "/repo"))
+    except BaseException as e:
+        print("skipped: the repository under check cannot be loaded:", repr(e)[:200])
+        return 0
 
     class T(Harness):
         function = "toy"
@@ -109,7 +114,7 @@ def main():
 
         def setup(self, c, case):
             base = new_base(c, "X")
-            fam = new_family(c, "X", base, kind="compound")
+            fam = new_family(c, "X", base)
             child_invariants(c, fam)
             return {"xs": Seq([Gen(base, z3.BoolVal(True), fam.at(base.ivar))]), "fam": fam}
 
